@@ -230,7 +230,7 @@ def _apply_fn(ex, st, f, callee, args):
         ty, var = ex.split_variant(f.a[0])
         if var is not None:
             return [(True, Adt(ty, var, list(args)))]
-        raise Unsupported('fn item ' + f.a[0])
+        return apply_callable(ex, st, f, callee, args)
     clo = ex.closure_text(callee)
     if clo is None:
         raise Unsupported('no closure in ' + callee)
@@ -248,7 +248,7 @@ def m_option_map(ex, st, a, c, m):
     o = a[0]
     if o.variant == 'None':
         return [(True, o)]
-    return [(cnd, some(v)) for cnd, v in _apply_fn(ex, st, a[1], c, [o.fields[0]])]
+    return [(cnd, v if isinstance(v, Opaque) and v.tag in ('PANIC', 'OOB') else some(v)) for cnd, v in _apply_fn(ex, st, a[1], c, [o.fields[0]])]
 
 
 def m_try_branch(ex, st, a, c, m):
@@ -298,8 +298,17 @@ def m_from_residual(ex, st, a, c, m):
 
 
 # ------------------------------------------------------------------ iterators
+ITER_TYPES = ('Iter', 'MapIter', 'FilterMapIter', 'FlatMapIter', 'MapWhileIter', 'FilterIter', 'ChainIter', 'FlattenIter')
+
+
 def m_into_iter(ex, st, a, c, m):
     v = ex.deref(a[0])
+    if isinstance(v, Adt) and v.ty in ITER_TYPES:
+        return [(True, v)]                                  # an iterator is its own IntoIterator
+    if isinstance(v, Adt) and v.ty in ('Option', 'Result'):
+        return [(True, Adt('Iter', None, [[v.fields[0]] if v.variant in ('Some', 'Ok') else [], 0]))]
+    if isinstance(v, Adt) and v.ty == 'HashSet':
+        raise Unsupported('iteration order of a HashSet')
     return [(True, Adt('Iter', None, [list(v), 0]))]
 
 
@@ -367,7 +376,7 @@ def _iter_items(ex, st, it):
 
 def m_collect(ex, st, a, c, m):
     items = _iter_items(ex, st, a[0])
-    if 'HashSet' in c.split('collect')[-1] or re.search(r'collect::<(std::collections::)?HashSet', c):
+    if 'HashSet' in c.split('collect')[-1] or 'BTreeSet' in c.split('collect')[-1] or re.search(r'collect::<(std::collections::)?HashSet', c):
         return [(True, Adt('HashSet', None, [items]))]
     return [(True, items)]
 
@@ -390,6 +399,9 @@ def m_sum_uint128(ex, st, a, c, m):
     for x in items:
         tot = tot + uval(ex, x)
     tot = z3.simplify(tot)
+    if re.search(r'::sum::<u(8|16|32|64|128|size)>', c):
+        bits = int(re.search(r'::sum::<u(8|16|32|64|128|size)>', c).group(1).replace('size', '64'))
+        return [(tot < 2 ** bits, tot), (tot >= 2 ** bits, PANIC('integer sum overflow'))]
     return [(tot < TWO128, U(tot)), (tot >= TWO128, PANIC('Uint128 sum overflow'))]
 
 
@@ -1211,7 +1223,7 @@ RAW_MODELS = [
     (r'^<Uint128 as std::ops::Sub>::sub$', m_u_sub), (r'^<Uint128 as std::ops::Add>::add$', m_u_add),
     (r'^<Uint128 as SubAssign>::sub_assign$', m_u_sub_assign),
     (r'^Uint128::checked_sub$', m_u_checked_sub), (r'^Uint128::checked_add$', m_u_checked_add),
-    (r'^<(Uint128|u128) as ToString>::to_string$', m_u_to_string),
+    (r'^<(Uint128|u128|u64|u32|usize|NonZero<u128>|NonZeroU128|std::num::NonZero<u128>) as ToString>::to_string$', m_u_to_string),
     (r'^core::num::<impl u128>::pow$', m_pow),
     # --- storage
     (r'^cw_storage_plus::Map::new$', m_map_new), (r'^Item::new$', m_item_new),
@@ -1242,7 +1254,7 @@ RAW_MODELS = [
     (r'^<.* as IntoIterator>::into_iter$', m_into_iter), (r'^core::slice::<impl \[.*\]>::iter$', m_slice_iter),
     (r'^<.* as Iterator>::next$', m_iter_next), (r'^<.* as Iterator>::map$', m_iter_map), (r'^<.* as Iterator>::filter_map$', m_iter_filter_map), (r'^<.* as Iterator>::map_while$', m_iter_map_while),
     (r'^<.* as Iterator>::collect$', m_collect), (r'^<.* as Iterator>::any$', m_any), (r'^<.* as Iterator>::sum$', m_sum_uint128),
-    (r'^HashSet::contains$|^core::slice::<impl \[.*\]>::contains$', m_contains), (r'^HashSet::is_subset$', m_is_subset),
+    (r'^(HashSet|BTreeSet)::contains$|^core::slice::<impl \[.*\]>::contains$', m_contains), (r'^(HashSet|BTreeSet)::is_subset$', m_is_subset),
     (r'^std::vec::Vec::new$', m_vec_new), (r'^std::vec::Vec::push$', m_vec_push), (r'^std::vec::Vec::len$', m_len),
     (r'^std::vec::Vec::is_empty$|^core::slice::<impl \[.*\]>::is_empty$', m_list_is_empty),
     (r'^std::vec::Vec::as_slice$', m_deref_val),
@@ -1827,7 +1839,7 @@ def m_hashset_len(ex, st, a, c, m):
 
 
 RAW_MODELS[:0] = [
-    (r'^HashSet::len$', m_hashset_len),
+    (r'^(HashSet|BTreeSet)::len$', m_hashset_len),
     (r'^core::str::<impl str>::as_bytes$|^core::str::<impl str>::as_str$', m_str_val),
 ]
 MODELS = [(re.compile(p), f) for p, f in RAW_MODELS]
@@ -1927,8 +1939,20 @@ def m_addr_unchecked(ex, st, a, c, m):
 
 
 def m_add_messages(ex, st, a, c, m):
-    a[0].fields[0].extend(ex.deref(a[1]))
-    return [(True, a[0])]
+    outs = []
+    for cnd, items in _iter_alts(ex, st, ex.deref(a[1])):
+        def eff(st2, items=items):
+            pass
+        outs.append((cnd, items))
+    if len(outs) == 1:
+        a[0].fields[0].extend(outs[0][1])
+        return [(True if outs[0][0] is True else outs[0][0], a[0])]
+    res = []
+    for cnd, items in outs:
+        r = clone(a[0], {})
+        r.fields[0].extend(items)
+        res.append((cnd, r))
+    return res
 
 
 def m_iter_position(ex, st, a, c, m):
@@ -2007,7 +2031,10 @@ ITER_ALT_CAP = 96
 
 
 def _closure_outs(ex, st, clo_text, clo, args):
-    r = ex.call_closure(st, clo_text, clo, args)
+    if (isinstance(clo, Opaque) and clo.tag == 'fn') or clo_text is None:
+        r = apply_callable(ex, st, clo, clo_text or '', args)
+    else:
+        r = ex.call_closure(st, clo_text, clo, args)
     return [(True if c is True else c, v) for c, v in r]
 
 
@@ -2053,6 +2080,25 @@ def _iter_alts(ex, st, it):
                     raise Unsupported('too many closure outcomes inside an iterator adapter')
                 alts = nxt
             out += [(c, got) for c, got, _ in alts]
+        return out
+    if it.ty == 'ChainIter':
+        out = []
+        for c0, xs in _iter_alts(ex, st, it.fields[0]):
+            for c1, ys in _iter_alts(ex, st, it.fields[1]):
+                out.append((c0 if c1 is True else (c1 if c0 is True else z3.And(c0, c1)), xs + ys))
+        return out
+    if it.ty == 'FlattenIter':
+        out = []
+        for c0, xs in _iter_alts(ex, st, it.fields[0]):
+            alts = [(c0, [])]
+            for x in xs:
+                x = ex.deref(x)
+                nxt = []
+                for c1, got in alts:
+                    for c2, ys in _iter_alts(ex, st, x):
+                        nxt.append((c1 if c2 is True else (c2 if c1 is True else z3.And(c1, c2)), got + ys))
+                alts = nxt
+            out += alts
         return out
     if it.ty == 'FilterIter':
         src, clo, clo_text = it.fields
@@ -2108,7 +2154,7 @@ def m_collect(ex, st, a, c, m):
     tail = c.split('collect', 1)[-1]
     into_result = bool(re.search(r'^::<(std::result::)?(Std)?Result<|^::<Result<', tail))
     into_option = bool(re.search(r'^::<(std::option::)?Option<', tail))
-    into_set = 'HashSet' in tail
+    into_set = 'HashSet' in tail or 'BTreeSet' in tail
     outs = []
     for cnd, items in _iter_alts(ex, st, a[0]):
         if into_result or into_option:
@@ -2439,3 +2485,228 @@ RAW_MODELS[:0] = [
     (r'^<.* as DerefMut>::deref_mut$', m_deref_mut),
 ]
 MODELS = [(re.compile(p), f) for p, f in RAW_MODELS]
+
+
+# ------------------------------------------------------------------ benign-set-3 batch: once / chain / flatten / then
+def m_iter_once(ex, st, a, c, m):
+    return [(True, Adt('Iter', None, [[a[0]], 0]))]
+
+
+def m_iter_empty(ex, st, a, c, m):
+    return [(True, Adt('Iter', None, [[], 0]))]
+
+
+def m_iter_chain(ex, st, a, c, m):
+    return [(True, Adt('ChainIter', None, [ex.deref(a[0]), ex.deref(a[1])]))]
+
+
+def m_iter_flatten(ex, st, a, c, m):
+    return [(True, Adt('FlattenIter', None, [ex.deref(a[0])]))]
+
+
+def m_option_flatten(ex, st, a, c, m):
+    o = a[0]
+    return [(True, o.fields[0] if o.variant == 'Some' else NONE())]
+
+
+def m_bool_then(ex, st, a, c, m):
+    b = ex.deref(a[0])
+    b = z3.simplify(b) if isinstance(b, z3.ExprRef) else z3.BoolVal(bool(b))
+    if c.split('::then')[-1].startswith('_some') or '::then_some' in c:
+        return [(b, some(a[1])), (z3.Not(b), NONE())]
+    outs = [(z3.Not(b), NONE())] if not z3.is_true(b) else []
+    if not z3.is_false(b):
+        saved = st.pc
+        st.pc = st.pc + [b]
+        try:
+            rs = _apply_fn(ex, st, a[1], c, [])
+        finally:
+            st.pc = saved
+        for c2, v in rs:
+            outs.append((b if c2 is True else z3.And(b, c2), v if isinstance(v, Opaque) else some(v)))
+    return outs
+
+
+def m_iter_next_any(ex, st, a, c, m):
+    """`next` on an adapter chain: materialise it in place first (single alternative only)"""
+    it = ex.deref(a[0])
+    if it.ty != 'Iter':
+        items = _iter_items(ex, st, it)
+        it.ty, it.fields = 'Iter', [items, 0]
+    return m_iter_next(ex, st, a, c, m)
+
+
+RAW_MODELS[:0] = [
+    (r'^std::iter::once$|^core::iter::once$', m_iter_once), (r'^std::iter::empty$|^core::iter::empty$', m_iter_empty),
+    (r'^<.* as Iterator>::chain$', m_iter_chain), (r'^<.* as Iterator>::flatten$', m_iter_flatten),
+    (r'^std::option::Option::flatten$', m_option_flatten),
+    (r'^core::bool::<impl bool>::then(_some)?$|^bool::then(_some)?$', m_bool_then),
+    (r'^<.* as Iterator>::next$', m_iter_next_any),
+]
+MODELS = [(re.compile(p), f) for p, f in RAW_MODELS]
+
+
+# ------------------------------------------------------------------ applying callables given as values (fn items, closures) by their own identity
+def _closure_texts(callee):
+    return re.findall(r'(\{closure@[^}]*\})', callee)
+
+
+def apply_callable(ex, st, f, callee, args, which=None):
+    """-> [(cond, value)] for a fn item / closure VALUE; `which` selects among several closure types named in the callee (0-based)"""
+    if isinstance(f, Opaque) and f.tag == 'fn':
+        ty, var = ex.split_variant(f.a[0])
+        if var is not None:
+            return [(True, Adt(ty, var, list(args)))]
+        name = ex_strip(f.a[0])
+        fi = ex.from_call(name)
+        if fi is not None:
+            return ex.call_closure_body(st, fi[0], list(args), fi[1])
+        tgt = ex.lookup_local(name)
+        if tgt is not None:
+            return ex.call_closure_body(st, tgt, list(args))
+        for pat, fn in ex.models:
+            mm = pat.match(name)
+            if mm:
+                outs = fn(ex, st, list(args), f.a[0], mm)
+                if any(len(o) == 3 and o[2] is not None for o in outs):
+                    raise Unsupported('effectful function passed as a value')
+                return [(o[0], o[1]) for o in outs]
+        raise Unsupported('fn item ' + f.a[0])
+    if isinstance(f, Adt) and isinstance(f.ty, str) and f.ty.startswith('{closure@') and f.ty in ex.closures:
+        return ex.call_closure(st, f.ty, f, list(args))
+    texts = _closure_texts(callee)
+    if not texts:
+        raise Unsupported('no closure in ' + callee)
+    t = texts[which] if which is not None and which < len(texts) else texts[0]
+    return ex.call_closure(st, t, f, list(args))
+
+
+def ex_strip(s_):
+    from .engine import strip_generics
+    return strip_generics(s_)
+
+
+def m_map_or_else(ex, st, a, c, m):
+    o = a[0]
+    texts = _closure_texts(c)
+    d_is_clo = not (isinstance(a[1], Opaque) and a[1].tag == 'fn')
+    if o.variant in ('None', 'Err'):
+        return apply_callable(ex, st, a[1], c, [o.fields[0]] if o.variant == 'Err' else [], which=0)
+    return apply_callable(ex, st, a[2], c, [o.fields[0]], which=1 if d_is_clo and len(texts) > 1 else 0)
+
+
+RAW_MODELS[:0] = [(r'^std::option::Option::map_or_else$|^Result::map_or_else$', m_map_or_else)]
+MODELS = [(re.compile(p), f) for p, f in RAW_MODELS]
+
+
+# ------------------------------------------------------------------ benign-set-3 batch 2
+def m_str_parse(ex, st, a, c, m):
+    if 'uuid::Uuid' in c or '::Uuid>' in c:
+        return m_uuid_parse(ex, st, a, c, m)
+    if 'semver::Version' in c or '<Version>' in c:
+        return m_version_parse(ex, st, a, c, m)
+    if 'Decimal' in c:
+        return m_dec_from_str(ex, st, a, c, m)
+    raise Unsupported('str::parse::<%s>' % c.split('parse', 1)[-1][:60])
+
+
+def m_uuid_encode_buffer(ex, st, a, c, m):
+    return [(True, Opaque('bytes', 'uuid-buffer'))]
+
+
+def m_hyph_encode(ex, st, a, c, m):
+    s_ = f_uuid_hyph(ex.deref(a[0]).fields[0])
+    if 'upper' in c:
+        raise Unsupported('upper-case uuid rendering')
+    return [(True, s_)]
+
+
+def m_option_transpose(ex, st, a, c, m):
+    o = a[0]
+    if o.ty == 'Option':
+        if o.variant == 'None':
+            return [(True, ok(NONE()))]
+        r = o.fields[0]
+        if isinstance(r, Opaque):
+            return [(True, r)]                   # a panic / out-of-bounds marker produced inside the mapped closure
+        return [(True, ok(some(r.fields[0])) if r.variant == 'Ok' else err(r.fields[0]))]
+    # Result<Option<T>, E> -> Option<Result<T, E>>
+    if o.variant == 'Err':
+        return [(True, some(err(o.fields[0])))]
+    inner = o.fields[0]
+    return [(True, some(ok(inner.fields[0])) if inner.variant == 'Some' else NONE())]
+
+
+RAW_MODELS[:0] = [
+    (r'^core::str::<impl str>::parse$', m_str_parse),
+    (r'^uuid::Uuid::encode_buffer$', m_uuid_encode_buffer), (r'^Hyphenated::encode_(lower|upper)$|^uuid::fmt::Hyphenated::encode_(lower|upper)$', m_hyph_encode),
+    (r'^std::option::Option::transpose$|^Result::transpose$', m_option_transpose),
+]
+MODELS = [(re.compile(p), f) for p, f in RAW_MODELS]
+
+
+# ------------------------------------------------------------------ benign-set-3 batch 3
+def m_string_from_any(ex, st, a, c, m):
+    return [(True, sval(ex, a[0]))]
+
+
+def m_identity_into(ex, st, a, c, m):
+    return [(True, a[0])]
+
+
+RAW_MODELS[:0] = [
+    (r'^<(std::string::)?String as From<(Addr|&Addr|&str|&String|String|&mut str|std::string::String)>>::from$', m_string_from_any),
+    (r'^once$', m_iter_once),
+    (r'^<(MsgTransferRequest|BankMsg|CosmosMsg.*) as Into<CosmosMsg.*>>::into$|^<CosmosMsg.* as From<(MsgTransferRequest|BankMsg)>>::from$', m_identity_into),
+]
+MODELS = [(re.compile(p), f) for p, f in RAW_MODELS]
+
+
+def m_option_iter(ex, st, a, c, m):
+    o = ex.deref(a[0])
+    return [(True, Adt('Iter', None, [[o.fields[0]] if o.variant in ('Some', 'Ok') else [], 0]))]
+
+
+RAW_MODELS[:0] = [(r'^std::option::Option::(iter|iter_mut|into_iter)$|^Result::(iter|into_iter)$', m_option_iter)]
+MODELS = [(re.compile(p), f) for p, f in RAW_MODELS]
+
+
+def m_stderr_from_overflow(ex, st, a, c, m):
+    return [(True, Adt('StdError', 'Overflow', [a[0]]))]
+
+
+def m_slice_to_vec(ex, st, a, c, m):
+    return [(True, clone(list(ex.deref(a[0])), {}))]
+
+
+RAW_MODELS[:0] = [
+    (r'^<(cosmwasm_std::)?StdError as From<(cosmwasm_std::)?OverflowError>>::from$', m_stderr_from_overflow),
+    (r'^(alloc::|core::)?slice::<impl \[.*\]>::to_vec$', m_slice_to_vec),
+]
+MODELS = [(re.compile(p), f) for p, f in RAW_MODELS]
+
+
+def m_nonzero_new(ex, st, a, c, m):
+    x = uval(ex, a[0])
+    return [(x != 0, some(Adt('NonZero', None, [x]))), (x == 0, NONE())]
+
+
+def m_nonzero_get(ex, st, a, c, m):
+    return [(True, ex.deref(a[0]).fields[0])]
+
+
+def m_u_rem(ex, st, a, c, m):
+    x, y = uval(ex, a[0]), uval(ex, a[1])
+    if z3.is_int_value(z3.simplify(y)) and z3.simplify(y).as_long() != 0:
+        return [(True, U(x % y))]
+    q, r = ex.euclid(st, x, y) if not z3.is_int_value(z3.simplify(y)) else (None, x % y)
+    return [(y != 0, U(r)), (y == 0, PANIC('Uint128 remainder by zero'))]
+
+
+RAW_MODELS[:0] = [
+    (r'^(std::num::|core::num::)?NonZero(U128|U64)?::new$|^core::num::nonzero::NonZero::new$', m_nonzero_new),
+    (r'^(std::num::|core::num::)?NonZero(U128|U64)?::get$|^core::num::nonzero::NonZero::get$', m_nonzero_get),
+    (r'^<Uint128 as (std::ops::)?Rem(<.*>)?>::rem$', m_u_rem),
+]
+MODELS = [(re.compile(p), f) for p, f in RAW_MODELS]
+
